@@ -861,7 +861,10 @@ def generate(rng: random.Random, profile: Optional[Dict[str, Any]] = None) -> Di
         theme = rng.choice(gen.SPECIAL_BLOCKS + (None, None, None))  # half of the runs stay on one family of inputs
         for _ in range(n_focus + (3 if theme else 0)):
             kind = theme if (theme and rng.random() < 0.8) else None
-            focus_e.append((gen.gen_module(rng, process_dependent=rng.random() < 0.4, special=True, force=kind), None))
+            x = gen.gen_module(rng, process_dependent=rng.random() < 0.4, special=True, force=kind)
+            if rng.random() < 0.25:
+                x = gen.with_blank_runs(rng, x)
+            focus_e.append((x, None))
     else:
         focus_e = [gen.pick_entry(rng, corpus, names_only) for _ in range(n_focus)]
     focus = [t for t, _ in focus_e]
